@@ -59,7 +59,11 @@ fn cycle_refs<T>(this: Link<T>) -> HashMap<Link<T>, usize> {
                     .entry(link)
                     .and_modify(|count| *count += strong)
                     .or_insert(strong);
-                discovered.push(link);
+                // A loopback link points at `node`, which has already been
+                // visited; crawling it again would double count its links.
+                if let Kind::Forward = link.kind() {
+                    discovered.push(link);
+                }
             } else {
                 cycle_owned_refs.entry(link.as_forward()).or_default();
             }
